@@ -5,8 +5,11 @@ import re
 import sys
 from pathlib import Path
 
-if "/repo" not in sys.path:
-    sys.path.insert(0, "/repo")
+import os
+
+REPO = os.environ.get("VERIF_REPO", "/repo")
+if REPO not in sys.path:
+    sys.path.insert(0, REPO)
 
 from src.orchestrator.core import FileLintContext  # noqa: E402
 
